@@ -89,13 +89,10 @@ class BayesianModelInference(Inference):
         list: List of np.array with each element representing the reduced
                 values correponding to the states in sc_values.
         """
-        try:
-            values = [
-                variable_cpd.get_state_no(variable_evid[i], sc[i])
-                for i in range(len(sc))
-            ]
-        except KeyError:
-            values = sc
+        # `sc` holds state numbers (the samplers and BayesianModelProbability work on
+        # state numbers and map to names at the end). They must not be looked up as
+        # state names first: integer state names such as [2, 3, 11] would capture them.
+        values = sc
 
         slice_ = [slice(None) for i in range(len(variable_cpd.variables))]
         for i, index in enumerate(reduce_index):
